@@ -14,7 +14,7 @@ PROPERTIES = {
         not_decided=['FTPProcessorSession.process/_fetch/_add_listing_links bodies: only _fetch_parent_path is under contract'],
     ),
     'C18': dict(
-        modules=['redirect', 'websession', 'itemsession', 'webproc'], level='proof',
+        modules=['filters', 'rule', 'redirect', 'websession', 'itemsession', 'webproc'], level='proof',
         claim='Integer/ghost-counter contracts on the real functions: the redirect counter counts every response carrying a Location and `exceeded` is '
               'count > max; a redirect follow-up is installed only within the limit, an authentication retry only when the previous loop type was not '
               'authentication; the per-visit loop of the web processor issues one request per iteration, approves it first, and has a lexicographic '
@@ -27,7 +27,7 @@ PROPERTIES = {
         not_decided=['termination of the whole crawl as one theorem (composition argument is on paper)'],
     ),
     'C11': dict(
-        modules=['url'], level='proof',
+        modules=['url'], level='proof', bounded=['c11_fuzz.py'],
         claim='Exception-escape and termination contracts on every function reachable from URLInfo.parse, on each documented accessor of a parsed '
               'URLInfo (class invariant = what parse establishes), on parse_url_or_log (raises nothing; the arguments of its log call are evaluated), '
               'urljoin (ValueError only) and urljoin_safe (raises nothing): for all strings and all valid codec names every exit is a value or a '
@@ -81,7 +81,7 @@ PROPERTIES = {
                      'one gzip member per record: assumed property of gzip.GzipFile'],
     ),
     'C06': dict(
-        modules=['warc'], level='proof',
+        modules=['warc'], level='proof', bounded=['c06_faults.py'],
         claim='write_record over a ghost file system: the crash invariant "archive unchanged, or a complete journal naming the pre-append length exists and the '
               'archive extends the old bytes, or the append completed" is asserted at every effect point (open, each write incl. any partial prefix, close, '
               'truncate, remove) on every path, with an OSError fork at each of them (one injected fault per execution); exceptional postcondition: archive '
